@@ -28,7 +28,7 @@ ASSUMPTIONS = ["sources' own aclose never suspends or fails", "sync iterables ha
                "a generator-based tool closed before its first step runs no code (language semantics): sources need "
                "not be closed then, except for handles that advertise eager closing (chain, tee, groupby)"]
 EXHAUSTIVE = {"quick": False, "thorough": False}
-N_SPECS = {"quick": 2600, "thorough": 50000}
+N_SPECS = {"quick": 12000, "thorough": 600000}
 SRC_FL = ["async_gen", "async_class", "async_class", "async_class_bare", "list"]
 EAGER = {"chain"}  # handles closing what they own even if never advanced (tee/groupby handled separately)
 
